@@ -22,7 +22,7 @@ LEVEL = 'exploration'
 
 def year_ranges(tier):
     if tier == 'quick':
-        return [(1, 2401), (9990, 10011), (100000, 100010)]
+        return [(1, 5001), (9900, 10101), (100000, 100020)]
     return [(1, 10400), (100000, 100400)]
 
 
